@@ -93,6 +93,15 @@ AuxAfter(x, f, tlo, thi) ==
              ELSE x.adv,
    heard |-> <<[tlo |-> tlo, thi |-> thi]>>]
 
+\* country code of an address per the allocation table; addresses inside uncertain blocks are unconstrained
+RegOK(a, reg) ==
+  LET bs == {i \in 1..NBlocks : Blocks[i].lo <= a /\ a <= Blocks[i].hi}
+      \* the extent of an uncertain block is uncertain too: the whole 4096-address page around it constrains nothing
+      unsure == \E i \in 1..NBlocks : ~Blocks[i].sure /\ (Blocks[i].lo \div 4096) * 4096 <= a
+                                         /\ a <= Max(Blocks[i].hi, (Blocks[i].lo \div 4096) * 4096 + 4095)
+  IN  IF unsure THEN TRUE
+      ELSE IF bs = {} THEN reg = "??" ELSE reg = Blocks[CHOOSE i \in bs : TRUE].code
+
 (***************************** single frame ********************************)
 AltCode13(f) == IF DFof(f) \in {4, 20} THEN AC13of(f) ELSE (AC12of(f) \div 64) * 128 + (AC12of(f) % 64)
 AltTagOf(f) ==
@@ -227,6 +236,9 @@ OneLine(ev, args, tbl, aux, obs) ==
   /\ Chk("C16", "filter", (li.isf /\ ~PassesFilter(li.df, args.f)) => ev.ch = <<>>, ev, "filter")
   /\ Mark("C16", li.isf /\ a # 0 /\ args.f # <<>>, ev)
   /\ Chk("C12", "present", app => a \in k1, ev, "present")
+  \* C17 on the reader path: the row of an applied frame shows the country of its address (certain blocks only)
+  /\ Chk("C17", "row.country", (app /\ a \in k1) => RegOK(a, pt[a].reg), ev, "reader.path")
+  /\ Mark("C17", app /\ a \in k1 /\ ~exists, ev)
   \* C11: re-feeding the frame just applied to an existing row changes nothing (stamps aside)
   /\ Chk("C11", "refeed",
          (app /\ ev.ok /\ st.last # <<>> /\ st.last[1].slot = ev.slot /\ st.last[1].lines = ev.lines
@@ -470,6 +482,7 @@ PrintStep(ev) ==
        LET r == prow(j) IN
        /\ Chk("C14", "row.known", r # <<>>, [i |-> ev.i], "unknown.row")
        /\ Chk("C14", "row.cells", (r # <<>> /\ Fits(cols, ev.header, r[1])) => RowOK(ev.lines[j], cols, ev.header, r[1]), [i |-> ev.i], "cells")
+       /\ Chk("C14", "marker.without.value", (r # <<>> /\ Fits(cols, ev.header, r[1])) => MarkersOK(ev.lines[j], cols, ev.header), [i |-> ev.i], "marker")
        /\ Chk("C14", "row.width", (r # <<>> /\ Fits(cols, ev.header, r[1])) => Len(ev.lines[j]) = Len(ev.header), [i |-> ev.i], "width")
   /\ Chk("C14", "one.line.each", Len(ev.lines) = Len(ev.rows), ev, "count")
   /\ Mark("C14", Len(ev.rows) > 0, ev)
